@@ -75,19 +75,11 @@ def judgeGroup0 (crit : String) (tornTol : Bool) (ops : List Op) (ok : List Bool
         | some i => if isCommitPoint ops i
             then some (diffState tables (expectedAfter ops (ok.set i true) (i + 1)) got) else none
         | none => none
-      match crit with
-      | "crash01" =>
-        let okB := match b with | some dB => dB.lost.isEmpty | none => false
-        if dA.lost.isEmpty || okB then none else some s!"k={g.k} lost={dA.lost}"
-      | "crash02" =>
-        let okB := match b with | some dB => dB.extra.isEmpty && subList dB.lost dA.lost | none => false
-        if dA.extra.isEmpty || okB then none else some s!"k={g.k} extra={dA.extra}"
-      | "crash08" =>
-        if g.again != "same" then some s!"k={g.k} again={g.again}"
-        else if g.probe != "ok" then some s!"k={g.k} probe={g.probe}"
-        else if g.nest == "-" ∨ g.nest.startsWith "ok:" then none
+      -- crash points inside recovery (`done/all:what` per failing point): an interrupted and restarted recovery must
+      -- end in the contents of the uninterrupted one
+      let nestProblem : Option String :=
+        if g.nest == "-" ∨ g.nest.startsWith "ok:" then none
         else
-          -- crash points inside recovery: `done/all:what` per failing point
           let bad := (g.nest.splitOn ",").filter (fun e =>
             match e.splitOn ":" with
             | ph :: _ =>
@@ -96,6 +88,17 @@ def judgeGroup0 (crit : String) (tornTol : Bool) (ops : List Op) (ok : List Bool
               | _ => true
             | [] => true)
           if bad.isEmpty then none else some s!"k={g.k} inside-recovery={bad.take 3}"
+      match crit with
+      | "crash01" =>
+        let okB := match b with | some dB => dB.lost.isEmpty | none => false
+        if dA.lost.isEmpty || okB then nestProblem else some s!"k={g.k} lost={dA.lost}"
+      | "crash02" =>
+        let okB := match b with | some dB => dB.extra.isEmpty && subList dB.lost dA.lost | none => false
+        if dA.extra.isEmpty || okB then none else some s!"k={g.k} extra={dA.extra}"
+      | "crash08" =>
+        if g.again != "same" then some s!"k={g.k} again={g.again}"
+        else if g.probe != "ok" then some s!"k={g.k} probe={g.probe}"
+        else nestProblem
       | _ => some "bad-criterion"
 
 /-! Region features of a workload prefix (ops with index ≤ p), used to attribute failures to listed findings. -/
@@ -209,7 +212,7 @@ def traceEvents (ops : List Op) : Nat → List Char → Option Nat → Bool → 
 
 `D<p>` page write, `Ja<b>` journal started for a checkpoint of `b` pages, `J<p>=` / `J<p>!` checkpointed contents of
 page `p` saved (the harness compares them with the file at the last `Ja`), `j` journal sync, `Jd` journal marked done,
-`t` log truncated, `u` journal emptied.  `Journal.accepts` (hypothesis of `restore_returns_checkpoint`) must accept. -/
+`d` database file sync, `t` log truncated, `u` journal emptied.  `Journal.accepts` (hypothesis of `restore_returns_checkpoint`) must accept. -/
 
 def digitsToNat (d : List Char) : Nat := ((String.ofList d).toNat?).getD 0
 
@@ -233,6 +236,7 @@ def journalTrace : Nat → List Char → List AxVerif.Journal.Ev → Bool → Li
         | _ :: r' => journalTrace fuel r' (.save (digitsToNat d) :: acc) false
         | [] => ((AxVerif.Journal.Ev.save (digitsToNat d) :: acc).reverse, false)
     else if c == 'j' then journalTrace fuel cs (.jsync :: acc) same
+    else if c == 'd' then journalTrace fuel cs (.dsync :: acc) same
     else if c == 't' then journalTrace fuel cs (.dropLog :: acc) same
     else if c == 'u' then journalTrace fuel cs (.empty :: acc) same
     else journalTrace fuel cs acc same
@@ -240,7 +244,7 @@ def journalTrace : Nat → List Char → List AxVerif.Journal.Ev → Bool → Li
 def journalProblem (tr : String) : List String :=
   let (evs, same) := journalTrace (tr.length + 1) tr.toList [] true
   (if AxVerif.Journal.accepts evs then [] else
-    ["J: the I/O trace breaks the journal rule (a checkpointed page overwritten before its contents were saved and synced, or the log dropped before the journal was marked done)"])
+    ["J: the I/O trace breaks the journal rule (a checkpointed page overwritten before its contents were saved and synced, the journal marked done or started over unsynced page writes, or the log dropped before the journal was marked done)"])
   ++ (if same then [] else ["J: a journal entry does not hold the checkpointed contents of its page"])
 
 def traceOfObs (obs : String) : Option String :=
@@ -295,10 +299,12 @@ def crash (flags : List String) (line : String) : String :=
               match traceOfObs obs with
               | some tr => journalProblem tr
               | none => ["J: no I/O trace in the observation"]
-            let all := liveProblem ++ r1Problem ++ problems
+            let all := liveProblem ++ problems
             -- `bad-hyp`: no crash point shows wrong contents, but a hypothesis of the theorems fails on the real trace
-            if all.isEmpty then (if jProblem.isEmpty then "ok" else s!"bad-hyp restore_returns_checkpoint: {joinWith "; " jProblem}")
-            else s!"bad {joinWith "; " ((jProblem ++ all).take 6)} (+{(jProblem ++ all).length - min (jProblem ++ all).length 6} more)"
+            let hyp := jProblem ++ r1Problem
+            let hypThm := if jProblem.isEmpty then "acked_commit_is_durable" else "restore_returns_checkpoint"
+            if all.isEmpty then (if hyp.isEmpty then "ok" else s!"bad-hyp {hypThm}: {joinWith "; " hyp}")
+            else s!"bad {joinWith "; " ((all ++ hyp).take 6)} (+{(all ++ hyp).length - min (all ++ hyp).length 6} more)"
           | _, _ => "bad unparsable-observation"
     | _ => "bad-op"
   | _ => "bad-op"
